@@ -13,7 +13,8 @@ PROPS_FILE = ["props/C16.v", "trunc/C16R.v"]
 RULE = ("cases = {linear+RBF features, linear+squared-exponential features, heteroscedastic noise with exp / cosh-1 / step / "
         "rectified-linear link} x Dx in 1..3, Dy in 1..2, number of kernels / noise units in 1..2, Da in {Dy, Dy+1}, "
         "arbitrary rational weights, centres, length scales and NON-ZERO offsets, Gaussian p(x) with R in 1..2 (feature "
-        "models); non-trivial = Dx*Dy*Dk > 1; distinct = SHA1 of the input")
+        "models); half of the heteroscedastic objects were built with another A resp. (M, W) and brought to the case's parameters by "
+        "obj.replace(...); non-trivial = Dx*Dy*Dk > 1; distinct = SHA1 of the input")
 EXPLANATION = ("model Approx.v: kernel construction + products + log-integrals (stage 1, exact in the log domain) and the "
                "moment assembly / joint / conditional (stage 2, exact linear algebra on the kernel expectations taken from the "
                "implementation's own public calls, converted exactly) vs marginal / joint / conditional transformation; "
@@ -41,12 +42,19 @@ def gen_case(g, kind, Dx, Dy, Dk, R=1, Da=None):
     else:
         Da = Da or Dy
         d["R"] = 1; d["p"] = lin.gen_pdfv(g, 1, Dx, ctor="Sigma")
-        while True:
-            A = [[Fr(g.randint(-2, 2), g.choice((1, 2))) for _ in range(Da)] for _ in range(Dy)]
-            AAt = [[sum(A[i][k] * A[j][k] for k in range(Da)) for j in range(Dy)] for i in range(Dy)]
-            import numpy as np
-            if lin.fdet(AAt) > 0 and np.linalg.cond(gtlib.fl(AAt)) < 1e3:
-                break
+        def genA():
+            while True:
+                A = [[Fr(g.randint(-2, 2), g.choice((1, 2))) for _ in range(Da)] for _ in range(Dy)]
+                AAt = [[sum(A[i][k] * A[j][k] for k in range(Da)) for j in range(Dy)] for i in range(Dy)]
+                import numpy as np
+                if lin.fdet(AAt) > 0 and np.linalg.cond(gtlib.fl(AAt)) < 1e3:
+                    return A
+        A = genA()
+        k = g.randint(0, 3)
+        if k == 0:
+            d["first"] = dict(A=genA())         # built with another noise mixing matrix, then obj.replace(A=A)
+        elif k == 1:
+            d["first"] = dict(M=g.mat(Dy, Dx), W=[[g.qnz(lo=-2, hi=2, dens=(2, 4))] + [Fr(1, 2)] * Dx for _ in range(Dk)])   # then replace(M=, W=)
         # W: offsets non-zero, input weights moderate (links stay O(1))
         W = [[g.qnz(lo=-2, hi=2, dens=(2, 4))] + [g.q(lo=-2, hi=2, dens=(2, 4)) for _ in range(Dx)] for _ in range(Dk)]
         for row in W:
@@ -108,7 +116,11 @@ def build(d):
     else:
         cls = dict(exp=ac.HeteroscedasticExpConditional, coshm1=ac.HeteroscedasticCoshM1Conditional,
                    heaviside=ac.HeteroscedasticHeavisideConditional, relu=ac.HeteroscedasticReLUConditional)[kind]
-        c = cls(M=jarr([d["M"]]), b=jarr([d["b"]]), A=jarr([d["A"]]), W=jarr(d["W"]))
+        first = d.get("first") or {}
+        c = cls(M=jarr([first.get("M", d["M"])]), b=jarr([d["b"]]), A=jarr([first.get("A", d["A"])]), W=jarr(first.get("W", d["W"])))
+        if first:
+            # the usual way to exchange a parameter of these dataclass objects: every derived quantity must follow
+            c = c.replace(**{k: (jarr(d[k]) if k == "W" else jarr([d[k]])) for k in first})
     if d.get("Sig0") is not None:
         mut = lambda c=c: c.update_Sigma(jarr([d["Sig"]]))
         if lin._MODE[0] == "before":
